@@ -179,6 +179,26 @@ def register(gen, T):
             out.append(f"def {k} : Bool := {'true' if v else 'false'}\n")
         out.append("\n")
 
+        # ---------------------------------------------------------------- generate_scope_block (label handling)
+        sb = normws(fn_body(gen_rs, "generate_scope_block"))
+        scope_ok = sb == (
+            "let mut statements = Vec::new(); for statement in &block.0 { let statement = generate_statement(statement, context)?; "
+            "if let Some(ast::Statement { kind: ast::StatementKind::CaseLabel(_, current) | ast::StatementKind::DefaultLabel(current), .. }) "
+            "= statements.last_mut() && let ast::Statement { kind: ast::StatementKind::Empty, .. } = **current "
+            "{ **current = statement; continue; } statements.push(statement); } Ok(statements)")
+        out.append("/-- generate_scope_block: a statement fills the still-empty slot of a label that is the last statement so far\n"
+                   "(and nothing else happens), otherwise it is pushed — the loop `Model.GenHlsl.genStmtsAcc` / `pushStmt` mirrors -/\n"
+                   f"def scopeBlockAsModelled : Bool := {'true' if scope_ok else 'false'}\n")
+        gs = normws(fn_body(gen_rs, "generate_statement"))
+        labels_ok = bool(re.search(
+            r"ir::StatementKind::CaseLabel\(value\) => \{ let expr = generate_literal\(value, context\)\?; let empty_statement = Box::new\(ast::Statement \{ "
+            r"kind: ast::StatementKind::Empty, location: SourceLocation::UNKNOWN, attributes: Vec::new\(\), \}\); "
+            r"ast::StatementKind::CaseLabel\(Located::none\(expr\), empty_statement\) \}", gs)) and bool(re.search(
+            r"ir::StatementKind::DefaultLabel => \{ let empty_statement = Box::new\(ast::Statement \{ kind: ast::StatementKind::Empty, "
+            r"location: SourceLocation::UNKNOWN, attributes: Vec::new\(\), \}\); ast::StatementKind::DefaultLabel\(empty_statement\) \}", gs))
+        out.append("/-- generate_statement: a label is emitted with an empty statement in its slot; the constant goes through generate_literal -/\n"
+                   f"def labelsEmittedEmpty : Bool := {'true' if labels_ok else 'false'}\n\n")
+
         # ---------------------------------------------------------------- generate_scalar_type
         sbody = fn_body(gen_rs, "generate_scalar_type")
         _, sarms, _ = first_match(sbody, r'^ty$')
